@@ -1,5 +1,5 @@
 INIT Init
 NEXT Next
-CONSTANTS ModelNames = 39
+CONSTANTS ModelNames = 59
 POSTCONDITION Summary
 CHECK_DEADLOCK FALSE
